@@ -304,6 +304,9 @@ func (r *Reader) readXRefStream(xref map[uint32]*xRefEntry, s *scanner) (Dict, R
 	if err != nil {
 		return nil, 0, err
 	}
+	// every layer of the decoded reader must be closed (some filters run a
+	// goroutine which otherwise stays blocked)
+	defer decoded.Close()
 	err = decodeXRefStream(xref, decoded, w, ss)
 	if err != nil {
 		return nil, 0, err
